@@ -20,14 +20,14 @@ use crate::{
     symbol_map::{
         defm::Defm,
         defset::Defset,
-        multiclass::{Multiclass, MulticlassId},
+        multiclass::{Multiclass, MulticlassId, RecordName},
         record::{Record, RecordId, RecordKind},
         record_field::RecordField,
         symbol::Symbol,
         template_arg::TemplateArgument,
         typ::Type,
         variable::{Variable, VariableId, VariableKind},
-        SymbolMap,
+        DefmRecordName, SymbolMap,
     },
 };
 
@@ -185,7 +185,7 @@ impl Indexable for ast::Def {
                 self.name().and_then(|it| relative_record_name(&it))
             {
                 let multiclass = ctx.symbol_map.multiclass_mut(multiclass_id);
-                multiclass.add_record_name(record_name, is_whole_name);
+                multiclass.add_record_name(RecordName::Def(record_name, is_whole_name));
             }
         }
 
@@ -275,6 +275,28 @@ fn relative_record_name(value: &ast::Value) -> Option<(EcoString, bool)> {
     Some((name.into(), true))
 }
 
+/// The type of a record whose name is not written out anywhere as a whole: it is composed of
+/// the name of a defm and a name in its multiclass, or completed by a computed part.
+fn type_of_composed_record_name(name: &EcoString, ctx: &IndexCtx) -> Option<Type> {
+    let beginning_len = match ctx.symbol_map.find_defm_record_name(name) {
+        // a record defined by a defm (`SLLI` of `defm SLL : M` with `def I` in M): it exists,
+        // its class is not known
+        Some(DefmRecordName::Whole) => return Some(Type::Unknown),
+        Some(DefmRecordName::Beginning(len)) => Some(len),
+        None => None,
+    };
+    // one of the records of `foreach i = … in def R#i : …`, or of a defm that computes the rest
+    // of the name (itself, or its multiclass): the longest beginning decides
+    match ctx.symbol_map.find_record_by_name_prefix(name) {
+        Some((Some(record_id), len)) if Some(len) >= beginning_len => {
+            let record_name = ctx.symbol_map.record(record_id).name.clone();
+            Some(Type::Record(record_id, record_name))
+        }
+        Some(_) => Some(Type::Unknown),
+        None => beginning_len.map(|_| Type::Unknown),
+    }
+}
+
 fn index_name_part(inner_value: &ast::InnerValue, ctx: &mut IndexCtx) {
     // in a name, an identifier that denotes nothing stands for itself (`def NAME#_acq_rel`)
     if let Some(ast::SimpleValue::Identifier(id)) = inner_value.simple_value() {
@@ -314,41 +336,33 @@ impl Indexable for ast::Defm {
 
         // the records this defm defines: its own name followed by what each record is called in
         // the multiclasses. Multiclasses are not instantiated: the names are known, no more.
-        let record_names: Vec<(EcoString, bool)> = ctx
+        let parent_list: Vec<(MulticlassId, usize)> = ctx
             .symbol_map
             .defm(defm_id)
             .parent_list
-            .clone()
-            .into_iter()
-            .flat_map(|it| ctx.symbol_map.record_names_of_multiclass(it))
+            .iter()
+            .map(|it| (*it, ctx.symbol_map.multiclass(*it).record_name_list.len()))
             .collect();
         // (a defm whose own name goes on with a computed part: only that beginning is known)
-        let record_names: Vec<(EcoString, bool)> =
-            match self.name().and_then(|it| relative_record_name(&it)) {
-                Some((prefix, true)) => record_names
-                    .into_iter()
-                    .map(|(name, is_whole_name)| (format!("{prefix}{name}").into(), is_whole_name))
-                    .collect(),
-                Some((prefix, false)) => vec![(prefix, false)],
-                None => Vec::new(),
-            };
+        let record_name = match self.name().and_then(|it| relative_record_name(&it)) {
+            Some((name, true)) => RecordName::Defm(name, parent_list),
+            Some((prefix, false)) => RecordName::Def(prefix, false),
+            None => return None,
+        };
         match ctx.scopes.current_multiclass_id() {
             // an inner defm: the enclosing multiclass defines these records in its turn
             Some(multiclass_id) => {
                 let multiclass = ctx.symbol_map.multiclass_mut(multiclass_id);
-                for (record_name, is_whole_name) in record_names {
-                    multiclass.add_record_name(record_name, is_whole_name);
-                }
+                multiclass.add_record_name(record_name);
             }
-            None => {
-                for (record_name, is_whole_name) in record_names {
-                    if is_whole_name {
-                        ctx.symbol_map.add_defm_record_name(record_name);
-                    } else {
-                        ctx.symbol_map.add_record_name_prefix(record_name, None);
-                    }
+            None => match record_name {
+                RecordName::Defm(name, parent_list) => {
+                    ctx.symbol_map.add_defm_record_names(name, parent_list);
                 }
-            }
+                RecordName::Def(prefix, _) => {
+                    ctx.symbol_map.add_record_name_prefix(prefix, None);
+                }
+            },
         }
 
         None
@@ -1039,21 +1053,8 @@ impl Indexable for ast::SimpleValue {
                 let Some(symbol_id) = ctx.resolve_id(&name) else {
                     return if name == "NAME" {
                         Some(Type::String)
-                    } else if ctx.symbol_map.is_defm_record_name(&name) {
-                        // a record defined by a defm (`SLLI` of `defm SLL : M` with `def I` in
-                        // M): it exists, its class is not known
-                        Some(Type::Unknown)
-                    } else if let Some(record_id) = ctx.symbol_map.find_record_by_name_prefix(&name)
-                    {
-                        // one of the records of `foreach i = … in def R#i : …`, or of a defm
-                        // whose multiclass computes the rest of the name
-                        match record_id {
-                            Some(record_id) => {
-                                let record_name = ctx.symbol_map.record(record_id).name.clone();
-                                Some(Type::Record(record_id, record_name))
-                            }
-                            None => Some(Type::Unknown),
-                        }
+                    } else if let Some(typ) = type_of_composed_record_name(&name, ctx) {
+                        Some(typ)
                     } else {
                         ctx.error(reference_loc.range, format!("symbol not found: {name}"));
                         None
